@@ -582,7 +582,12 @@ def correspond(ctx):
     ]
     ctx.trusted += ["harness/translate/gen_c19.py (statement-by-statement extraction of the five simulators' time loops, "
                     "parameter formulas, final rephasing and phase exponents, and of ab2rf's sj / peel / slices; the float atoms "
-                    "fed to the generated definitions are computed in harness/props/c19.py from the documented physics)"]
+                    "fed to the generated definitions are computed in harness/props/c19.py from the documented physics)",
+                    "harness/translate/gen_c19_norm.py (sound AST normalisation before matching: inlining of straight-line pure "
+                    "same-file helpers and of single-assignment temporaries under checked side conditions, keyword -> positional "
+                    "arguments, negated guards, integer-linear normal forms of loop headers / guards / slice bounds, symbolic "
+                    "execution of the state statements; an unsound rewrite would surface as a correspondence disagreement because "
+                    "the driver runs the generated definitions against the real code)"]
     ctx.traces = ctx.evaluations
 
 
